@@ -3,8 +3,8 @@ package main
 import (
 	"bytes"
 	"fmt"
-	"os"
 	"math/rand"
+	"os"
 	"sort"
 	"sync"
 	"time"
@@ -197,7 +197,7 @@ func (g *tierGate) openAll() {
 
 func init() {
 	checks["C03"] = func(rep *Report, tier string, seed int64) {
-		rep.Rule = "locked L1/L2 stacks (multi- and single-reader mode, main and batch port sharing one lock set): (a) exhaustive schedules: two connections each issue one command (thorough: also 2+1 commands) on the same key, for every pair of command kinds from {set, add, replace, append, prepend, delete, touch, get, gat} with the key initially absent, present in both tiers, or present in L2 only; a gate in the fake backends holds every backend request, and every interleaving of the two connections' backend requests that the key locks admit is executed (stateless exploration: each run's schedule is recorded and every feasible alternative choice is run in turn); (b) seeded random concurrent histories of 3..6 connections x 8 commands over 2 keys without the gate; oracle: the logged lock modes (write lock for every mutating command and get-and-touch, read locks for get); for pairs whose locks exclude each other (a write lock involved, or single-reader mode) the backend requests must form two blocks, and for every pair (two gets under shared read locks included) replies and final contents of both tiers must equal the compiled Lean model running the two commands whole in the order in which they first reached a backend (the statements of C03_serializable / C03_linearizable_shared_reads, replayed); then every history is checked for linearizability against the single-map model per key (porcupine), and when all commands have completed every entry L1 serves must equal L2's entry; distinct = distinct (configuration, command pair, initial state, schedule) / (configuration, history)"
+		rep.Rule = "locked L1/L2 stacks (multi- and single-reader mode, main and batch port sharing one lock set): (a) exhaustive schedules: two connections each issue one command (thorough: also 2+1 commands) on the same key, for every pair of command kinds from {set, add, replace, append, prepend, delete, touch, get, gat} with the key initially absent, present in both tiers, or present in L2 only; a gate in the fake backends holds every backend request, and every interleaving of the two connections' backend requests that the key locks admit is executed (stateless exploration: each run's schedule is recorded and every feasible alternative choice is run in turn); (b) seeded random concurrent histories of 3..6 connections x 8 commands over 2 keys without the gate; oracle: the logged lock modes (write lock for every mutating command and get-and-touch, read locks for get); for pairs whose locks exclude each other (a write lock involved, or single-reader mode) the backend requests must form two blocks, and for every pair (two gets under shared read locks included) replies and final contents of both tiers must equal the compiled Lean model running the two commands whole in the order in which they first reached a backend (the statements of C03_serializable / C03_linearizable_shared_reads, replayed); then every history is checked for linearizability against the single-map model per key (porcupine), and when all commands have completed every entry L1 serves must equal L2's entry; (c) the REAL memproxy binary built from app/memproxy.go, started with --locked --l2-enabled (both reader modes) in front of two fake backends: a delete on the batch port must wait for a set of the same key held inside its critical section on the main port; distinct = distinct (configuration, command pair, initial state, schedule) / (configuration, history)"
 		distinct := map[string]bool{}
 		drv := StartDriver()
 		defer drv.Close()
@@ -669,5 +669,8 @@ func init() {
 			}
 		}
 		rep.Distinct = len(distinct)
+		if bin := os.Getenv("VERIF_MEMPROXY"); bin != "" && os.Getenv("VERIF_C03_UNLOCKED") == "" {
+			memproxyProbe(rep, bin)
+		}
 	}
 }
